@@ -438,7 +438,7 @@ package netpoll
 //@   requires connok(c) && wf(c.outputBuffer) && c.operator.poll != nil && c.operator.detached >= 0 && c.operator.detached < 2147483000 && len(vs) > 0 && vs#arr != c.outputBuffer.caches#arr
 //@   ensures wf(c.outputBuffer) && rpos(c.outputBuffer) == old(rpos(c.outputBuffer)) && c.outputBuffer.length == old(c.outputBuffer.length)
 //@   ensures len(rs) > 0 ==> c.outputBuffer.length > 0 && vpos[0] == rpos(c.outputBuffer) && (forall k int {vnode[k]}{rs[k]#len}{rs[k]#arr} :: 0 <= k && k < len(rs) ==> vsentry(c.outputBuffer, rs, k))
-//@   modifies FDOperator.state, c.operator.detached, linkBufferNode.mode, mem:[]byte, vnode, vpos, wfEmptySeen
+//@   modifies FDOperator.state, c.operator.detached, linkBufferNode.mode, mem:[]byte, vnode, vpos, wfEmptySeen, rwCtl
 //@   ghost after call (*UnsafeLinkBuffer).IsEmpty#1: wfEmptySeen = result
 
 //@ func (*connection).outputAck
